@@ -227,6 +227,9 @@ def run(F, R, tier):
     # ---------------------------------------------------------------- R7 Phi for lambda^2 > 0
     _r7_phi(F, R, gen_m)
 
+    # ---------------------------------------------------------------- R8 Phi/lambda^2 at lambda^2 = 0
+    _r8_phi_limit(F, R)
+
     # ---------------------------------------------------------------- R6 scale-free regime tests
     R.rule("R6", "the test that selects an equal-argument expansion compares a scale-free quantity (x/y with 1), so that it "
                  "bounds the relative expansion variable (y-x)/x for arguments of every size in [1e-6, 1e6]", 6)
@@ -656,3 +659,182 @@ def _r7_phi(F, R, gen_m):
             break
     if not found:
         R.soft_broken("R7: small-u expansion of the u == v branch of phi_pos not found")
+
+
+
+# ---- the limit lambda^2 -> 0 of Phi/lambda^2 -----------------------------------------------------------------------
+
+def _r8_phi_limit(F, R):
+    """On the curve lambda^2(u,v) = 0 (sqrt u + sqrt v = 1, parametrised by s = sqrt v: u = (1-s)^2, v = s^2) the bracket
+    B of phi_pos vanishes and phi_pos = B/lambda -> dB/dlambda at lambda = 0.  The explicit limit formulas of
+    Phi_over_lambda_2 (sorted, normalised arguments) and of phi_over_y (both cases, z = 1 not necessarily the largest
+    argument; Phi/lambda^2 is symmetric and homogeneous of degree -1) must equal (dB/dlambda)/(2 c), c the largest argument."""
+    R.rule("R8", "the explicit lambda^2 -> 0 limits (Phi_over_lambda_2, both cases of phi_over_y) equal d(bracket of phi_pos)/d(lambda) "
+                 "at lambda = 0 on the curve sqrt(u) + sqrt(v) = 1, divided by 2 max(x,y,z)", 3)
+    S_ = SYM("s")
+    one = NUM(1)
+
+    def on_curve(t, env):
+        """term -> Rat over s, LOG(s), LOG(1-s), LOG(1+s): substitute env (param -> term in s), then resolve sqrt and log
+        of products of powers of s, 1-s, 1+s (0 < s < 1)"""
+        t = subst_sym(t, env)
+        base = {"s": Poly.atom(S_), "1-s": Poly.const(1) - Poly.atom(S_), "1+s": Poly.const(1) + Poly.atom(S_)}
+
+        def factor(p):
+            """p = c * s^a (1-s)^b (1+s)^c  -> (c, a, b, c) or None"""
+            exps = {}
+            cur = p
+            for nm, b in base.items():
+                e = 0
+                while True:
+                    q = _divide(cur, b)
+                    if q is None:
+                        break
+                    cur, e = q, e + 1
+                exps[nm] = e
+            if not cur.is_const() or not cur.t:
+                return None
+            return cur.const_value(), exps
+
+        def atomize(x):
+            if x[0] == "call" and short(x[1]) in ("sqrt", "log", "abs") and len(x[2]) == 1:
+                a = to_rat_s(x[2][0])
+                fn_, fd_ = factor(a.n), factor(a.d)
+                if fn_ is None or fd_ is None:
+                    raise NotPolynomial("argument of %s is not a product of s, 1-s, 1+s: %s" % (short(x[1]), show(x)[:60]))
+                c = fn_[0] / fd_[0]
+                ex = {k: fn_[1][k] - fd_[1][k] for k in base}
+                if short(x[1]) == "abs":
+                    r = Rat(Poly.const(abs(c)))
+                    for k, e in ex.items():
+                        for _ in range(abs(e)):
+                            r = r * Rat(base[k]) if e > 0 else r / Rat(base[k])
+                    return r
+                if short(x[1]) == "sqrt":
+                    if any(e % 2 for e in ex.values()) or c <= 0:
+                        raise NotPolynomial("sqrt of a non-square")
+                    import math as _m
+                    rc = Fraction(_m.isqrt(c.numerator), _m.isqrt(c.denominator))
+                    if rc * rc != c:
+                        raise NotPolynomial("sqrt of a non-square constant")
+                    r = Rat(Poly.const(rc))
+                    for k, e in ex.items():
+                        for _ in range(abs(e) // 2):
+                            r = r * Rat(base[k]) if e > 0 else r / Rat(base[k])
+                    return r
+                # log
+                from .closedform import _log_of_rational
+                res = Poly()
+                if abs(c) != 1:
+                    res = res + _log_of_rational(abs(c))
+                for k, e in ex.items():
+                    if e:
+                        res = res + Poly.atom(("LOGS", k)).scale(e)
+                return Rat(res)
+            return None
+
+        def to_rat_s(u_):
+            from .poly import to_rat as _tr
+            return _tr(u_, atomize=atomize)
+        return to_rat_s(t)
+
+    # ---- dB/dlambda at lambda = 0 from the generic branch of phi_pos -----------------------------------------------
+    f = fn(F, "phi_pos")
+    E = Evaluator(F, inline=lambda n_, g: bool(re.search(r"::(sqr|luv)$", n_)), max_depth=4)
+    v, fr = E.function_value(f)
+    gv = generic_leaf(leaves(v))[1]
+    for _ in range(6):
+        cs = ite_conds(gv)
+        if not cs:
+            break
+        gv = subst_fold(gv, {c: NUM(0) for c in cs if not ite_conds(c)})
+    # gv = B / sqrt(lambda_2(u,v)); make lambda a symbol
+    lam_t = [x for x in subterms(gv) if isinstance(x, tuple) and len(x) == 3 and x[0] == "call" and short(x[1]) == "sqrt"]
+    lam_t = [x for x in lam_t if "lambda_2" in show(x)]
+    if not lam_t or gv[0] != "/" or gv[2] != lam_t[0]:
+        R.soft_broken("R8: phi_pos is not of the form bracket/sqrt(lambda_2(u,v))")
+        return
+    from .kernels import _subst as _tsub
+    B = _tsub(gv[1], lam_t[0], SYM("lam"))
+    try:
+        dB = diff_term(B, "lam")
+        dB0 = subst_sym(dB, {"lam": NUM(0)})
+        B0 = subst_sym(B, {"lam": NUM(0)})
+        curve = {"u": ("*", ("-", one, S_), ("-", one, S_)), "v": ("*", S_, S_)}
+        b0 = on_curve(B0, curve)
+        # B(lambda = 0) must vanish on the curve:  -log u log v + 2 log x log y - 2 Li2(x) - 2 Li2(y) + pi^2/3 with x + y = 1
+        # (Euler reflection Li2(x) + Li2(1-x) = pi^2/6 - log x log(1-x)) -- checked on the derivative level only
+        L = on_curve(dB0, curve)                      # limit of phi_pos = B'(0)
+    except NotPolynomial as e:
+        R.soft_broken("R8: %s" % str(e)[:160])
+        return
+    # ---- Phi_over_lambda_2 ------------------------------------------------------------------------------------------
+    f = fn(F, "Phi_over_lambda_2")
+    E2 = Evaluator(F, inline=lambda n_, g: bool(re.search(r"::(sqr)$", n_)), max_depth=2)
+    v2, _ = E2.function_value(f)
+    lim = [val for fa, val in leaves(v2) if true_conds(fa)]
+    try:
+        if len(lim) != 1:
+            raise NotPolynomial("limit branch of Phi_over_lambda_2 not found")
+        pn = [p_["name"] for p_ in f["params"]]
+        got = on_curve(lim[0], {pn[0]: curve["u"], pn[1]: curve["v"], pn[2]: one})
+        R.check("R8", (got - L * Rat(Poly.const(Fraction(1, 2)))).is_zero(),
+                "Phi_over_lambda_2: limit branch == (d bracket/d lambda)/(2 z) on sqrt(u) + sqrt(v) = 1", F.loc(f),
+                "the lambda^2 -> 0 value returned by Phi_over_lambda_2 is not the limit of Phi/lambda^2", key="R8|Phi_over_lambda_2")
+    except NotPolynomial as e:
+        R.soft_broken("R8 Phi_over_lambda_2: %s" % str(e)[:140])
+    # ---- phi_over_y ------------------------------------------------------------------------------------------------------
+    f = fn(F, "phi_over_y")
+    v3, _ = E2.function_value(f)
+    cases = [(fa, val) for fa, val in leaves(v3) if true_conds(fa)]
+    pn = [p_["name"] for p_ in f["params"]]          # (xu, xd); Phi(xd, xu, 1)
+    try:
+        if len(cases) != 2:
+            raise NotPolynomial("%d limit branches in phi_over_y, expected 2" % len(cases))
+        # case a: xu = (1 - sqrt xd)^2, xd = s^2 < 1: largest argument is 1 -> (u, v) = ((1-s)^2, s^2), c = 1
+        # case b: xu = (1 + sqrt xd)^2, xd = s'^2: largest is xu; on the curve with s = s'/(1+s'):  c = (1+s')^2 = 1/(1-s)^2
+        ok_a = ok_b = False
+        for fa, val in cases:
+            ga = on_curve(val, {pn[0]: curve["u"], pn[1]: curve["v"]})
+            if (ga - L * Rat(Poly.const(Fraction(1, 2)))).is_zero():
+                ok_a = True
+                continue
+            # s' = s/(1-s):  xd = s'^2, xu = (1+s')^2 = 1/(1-s)^2
+            sp = ("/", S_, ("-", one, S_))
+            gb = on_curve(val, {pn[1]: ("*", sp, sp), pn[0]: ("/", one, ("*", ("-", one, S_), ("-", one, S_)))})
+            c = Rat(Poly.const(1)) / (Rat(Poly.const(1) - Poly.atom(S_)) * Rat(Poly.const(1) - Poly.atom(S_)))
+            # sorted normalised arguments: {1/c, xd/c} = {(1-s)^2, s^2}
+            if (gb - L * Rat(Poly.const(Fraction(1, 2))) / c).is_zero():
+                ok_b = True
+        R.check("R8", ok_a, "phi_over_y, xu = (1 - sqrt xd)^2: limit == (d bracket/d lambda)/2", F.loc(f),
+                "the first limit formula of phi_over_y is not the limit of Phi(xd,xu,1)/lambda^2", key="R8|phi_over_y|a")
+        R.check("R8", ok_b, "phi_over_y, xu = (1 + sqrt xd)^2: limit == (d bracket/d lambda)/(2 xu)", F.loc(f),
+                "the second limit formula of phi_over_y is not the limit of Phi(xd,xu,1)/lambda^2", key="R8|phi_over_y|b")
+    except NotPolynomial as e:
+        R.soft_broken("R8 phi_over_y: %s" % str(e)[:140])
+
+
+def _divide(p, b):
+    """exact division of a univariate polynomial in s by a linear polynomial b; None if not divisible"""
+    x = SYM("s")
+    if any(a != x for a in p.atoms()) or p.degree_in(x) < b.degree_in(x) or not p.t:
+        return None
+    deg = p.degree_in(x)
+    c = [(p.coeff_of(x, k).const_value() if p.coeff_of(x, k).t else Fraction(0)) for k in range(deg + 1)]
+    b0 = b.coeff_of(x, 0).const_value() if b.coeff_of(x, 0).t else Fraction(0)
+    b1 = b.coeff_of(x, 1).const_value() if b.degree_in(x) == 1 else Fraction(0)
+    if b1 == 0:
+        return None
+    q = [Fraction(0)] * deg
+    rem = list(c)
+    for k in range(deg, 0, -1):
+        q[k - 1] = rem[k] / b1
+        rem[k - 1] -= q[k - 1] * b0
+        rem[k] = Fraction(0)
+    if rem[0] != 0:
+        return None
+    out = Poly()
+    for k, ck in enumerate(q):
+        if ck:
+            out = out + ((Poly.atom(x) ** k).scale(ck) if k else Poly.const(ck))
+    return out
